@@ -11,5 +11,6 @@ globals().update(P.make("C15",
     "cconv probe: (subsets of the 8 advertised extensions) x (subsets of the MailOptions fields) with benign values and a random RcptOptions "
     "subset (quick: a 25% x 30% sample, thorough: all 2^8 x 2^6); EHLO twice with different extension sets; HELO fallback; every hostile "
     "string up to the tier's length over {CR, LF, NUL, SP, '<', '>', 'a'} in each string-typed argument (Hello, Verify, Mail from, ENVID/AUTH, "
-    "Rcpt to, ORCPT, NOTIFY, RET) x 4 extension sets. non-trivial = more than one call; distinct = distinct case line",
-    ["C15_mail_one_line", "C15_rcpt_one_line", "C15_hostile_address_refused", "C15_no_ext_no_params", "C15_unoffered_is_error"], _groups))
+    "Rcpt to, ORCPT, NOTIFY, RET) x 4 extension sets; a refused Hello followed by another method.  non-trivial = more than one call; distinct = distinct case line",
+    ["C15_mail_one_line", "C15_rcpt_one_line", "C15_hostile_address_refused", "C15_no_ext_no_params", "C15_unoffered_is_error", "C15_mail_params_gated", "C15_mail_default_gated",
+     "C15_rcpt_params_gated", "C15_call_whole_lines", "C15_one_line_per_call", "C15_history_keeps_premises"], _groups))
